@@ -1,26 +1,24 @@
 """C18 — tree layout satisfies the tidy-tree invariants and is repeatable."""
-import os
 
 from hypothesis import strategies as st
 
 from . import shapes as S
-from .runner import ROOT, hyp_run
+from .runner import hyp_run
 
 PROP = "C18"
 LEVEL = "exploration"
 RULE = (
-    "exhaustive: every shape with <= 8 (quick) / 9 (thorough) nodes and every full shape (0 or 2 children) with <= 17 / 19 nodes, each laid out with "
+    "exhaustive: every shape with <= 8 (quick) / 10 (thorough) nodes and every full shape (0 or 2 children) with <= 17 / 21 nodes, each laid out with "
     "unit multipliers (1,1) and one other pair from {0.5,1,2,3}^2, laid out a second and third time on the same nodes, on "
-    "a fresh tree, and mirrored; plus Hypothesis-drawn shapes to 60 nodes (general and full); oracle clauses: (a) y == "
+    "a fresh tree, and mirrored; plus Hypothesis-drawn shapes to 60 (quick) / 200 (thorough) nodes (general and full); oracle clauses: (a) y == "
     "depth*unit_y, (b) left child strictly left / right child strictly right, (c) two-child parent centred, (d) nodes of a "
     "level in tree order >= unit_x apart, (e) reported bounds == bounding box, width/height/centre consistent, (f) same "
     "coordinates on a fresh tree and on repeated layout, x scales with unit_x, (g) mirrored shape gives mirrored x; "
     "non-trivial = >= 4 nodes; distinct by (shape, multipliers)"
 )
 ASSUMPTIONS = [
-    "clauses (b), (d), (g) are violated on the unchanged tree by known finding F-C18-2 (incomplete Reingold-Tilford port); inside the "
-    "enumerated domain exactly the (shape, clause) pairs listed in known/c18_shapes.txt are attributed to it, outside it the attribution "
-    "uses the predicate 'has a one-child node and > 5 nodes, or is full with >= 15 nodes' and is counted separately",
+    "the layout is specified for trees with consistent parent/child links and no shared nodes; coordinates are compared exactly (all offsets are "
+    "multiples of 1/2 times small integers, exact in binary64, for the sizes generated)",
 ]
 UNITS = [0.5, 1.0, 2.0, 3.0]
 
@@ -155,51 +153,6 @@ def clause_violations(shape_text, ux, uy):
     return bad, info
 
 
-STRICT = {"a", "c", "e", "f-repeat", "f-fresh", "f-units", "raised", "e-subtree", "a-subtree"}
-
-
-def in_enumerated_domain(shape):
-    """The domain in which known-finding attribution is exact (pinned list): all shapes <= 9 nodes and all full shapes
-    <= 19 nodes. The quick tier enumerates its <= 8 / <= 17 part, the thorough tier all of it."""
-    n = S.size(shape)
-    return n <= 9 or (n <= 19 and S.is_full(shape))
-
-
-_known = None
-
-
-def known_pairs():
-    global _known
-    if _known is None:
-        _known = set()
-        path = os.path.join(ROOT, "known", "c18_shapes.txt")
-        if os.path.exists(path):
-            for line in open(path):
-                line = line.strip()
-                if line and not line.startswith("#"):
-                    sh, cl = line.split()
-                    for c in cl.split(","):
-                        _known.add((sh, c))
-    return _known
-
-
-def classify_tilford(bucket, case, detail, args):
-    if not bucket.startswith("clause|") or not isinstance(detail, dict):
-        return False
-    clause = bucket.split("|")[1]
-    if clause not in ("b", "d", "g"):
-        return False
-    shape_text = case["shape"]
-    shape = S.from_text(shape_text)
-    if in_enumerated_domain(shape):
-        return (shape_text, clause) in known_pairs()
-    n = S.size(shape)
-    return (S.has_one_child_node(shape) and n > 5) or (S.is_full(shape) and n >= 15)
-
-
-CLASSIFIERS = {"incomplete_reingold_tilford": classify_tilford}
-
-
 def check_shape(ctx, case):
     text = case["shape"]
     ux, uy = case.get("ux", 1.0), case.get("uy", 1.0)
@@ -210,10 +163,7 @@ def check_shape(ctx, case):
     if n >= 4:
         ctx.nontriv((text, ux, uy))
     ctx.sample({"shape": text, "ux": ux, "uy": uy, "coords": info.get("coords")}, cap=6)
-    enumerated = in_enumerated_domain(shape)
     for c in sorted(bad):
-        if c in ("b", "d", "g"):
-            ctx.count("known_class_clause_failures" + ("" if enumerated else "_unpinned"))
         ctx.fail(("clause", c), case, {"violated": sorted(bad), "nodes": n, **{k: v for k, v in info.items() if k != "coords"}})
     if not bad:
         ctx.count("shapes_all_clauses_hold")
@@ -225,9 +175,9 @@ def replay(ctx, case):
 
 def enumerated_shapes(thorough=False):
     out = []
-    for n in range(1, 10 if thorough else 9):
+    for n in range(1, 11 if thorough else 9):
         out.extend(S.shapes_exact(n))
-    for n in range(11 if thorough else 9, 20 if thorough else 18, 2):
+    for n in range(11 if thorough else 9, 22 if thorough else 18, 2):
         out.extend(S.full_shapes_exact(n))
     return out
 
@@ -243,7 +193,8 @@ def run(ctx):
         ctx.count("evaluations")
         check_shape(ctx, {"shape": text, "ux": UNITS[i % 4], "uy": UNITS[(i // 4 + 1) % 4]})
     ctx.info["exhaustive"] = True
-    ctx.info["exhaustive_bound"] = f"all shapes <= {9 if ctx.tier == 'thorough' else 8} nodes and all full shapes <= {19 if ctx.tier == 'thorough' else 17} nodes ({len(shapes)} shapes), two multiplier pairs each"
+    ctx.info["exhaustive_bound"] = f"all shapes <= {10 if ctx.tier == 'thorough' else 8} nodes and all full shapes <= {21 if ctx.tier == 'thorough' else 17} nodes ({len(shapes)} shapes), two multiplier pairs each"
     units = st.sampled_from(UNITS)
-    rnd = st.builds(lambda s, a, b: {"shape": s, "ux": a, "uy": b}, st.one_of(S.shape_strategy(60, 9), S.shape_strategy(59, 19, full=True)), units, units)
+    big = 60 if ctx.tier == "quick" else 200
+    rnd = st.builds(lambda s, a, b: {"shape": s, "ux": a, "uy": b}, st.one_of(S.shape_strategy(big, 9), S.shape_strategy(big - 1, 19, full=True)), units, units)
     hyp_run(ctx, "random-shapes", rnd, check_shape, ctx.n(1500, 10000))
